@@ -49,11 +49,18 @@ Record srv := {
   clients : N -> option client;     (* CloudControl.GetClientConfig *)
   next_id : N; next_secret : N; next_nonce : N;
   banned : N -> bool;               (* BruteForceProtector.bannedIPs *)
-  black : N -> bool;                (* IPManager.blacklist *)
+  black : N -> bool;                (* IPManager.blacklist, by entry key: [k_ip a] = the entry "a", [k_cidr a] = a CIDR entry covering a;
+                                       persisted in storage (ip_manager_storage.go) *)
   fails : N -> N;                   (* BruteForceProtector.failures[ip] (all inside the time window) *)
   rl_deny : bool;                   (* RateLimiter.AllowIP refuses *)
   conns : N -> option conn;         (* SessionManager.connMap + ClientRegistry.connMap *)
   index : N -> option N }.          (* ClientRegistry.clientIDMap : client id -> connection *)
+
+(* blacklist entry keys for address a: the exact-IP entry and a CIDR entry (/32) covering it *)
+Definition k_ip (a : N) : N := 2 * a.
+Definition k_cidr (a : N) : N := 2 * a + 1.
+(* IPManager.IsAllowed = false (whitelist empty): exact match or CIDR match, permanent or not yet expired *)
+Definition blocked (s : srv) (a : N) : bool := black s (k_ip a) || black s (k_cidr a).
 
 Definition init : srv :=
   {| clients := fun _ => None; next_id := 1; next_secret := 1; next_nonce := 1;
@@ -134,7 +141,7 @@ Definition first_state (keep : bool) (s : srv) (a : N) : srv :=
 
 (* auth_handler.go HandleHandshake, on the ControlConnection [c] of a peer at address [a] *)
 Definition auth (keep : bool) (s : srv) (c : cc) (a : N) (m : hs) : srv * cc * aresp :=
-  if black s a then (s, c, AFail)                                        (* 1. IPManager.IsAllowed *)
+  if blocked s a then (s, c, AFail)                                      (* 1. IPManager.IsAllowed *)
   else if banned s a then (s, c, AFail)                                  (* 2. BruteForceProtector.IsBanned *)
   else if (h_cid m =? 0) && rl_deny s then (s, c, AFail)                 (* 3. rate limit, anonymous only *)
   else if (h_cid m =? 0) && h_new m then                                 (* 4. handleFirstConnection *)
@@ -223,11 +230,24 @@ Definition handle (v : variant) (s : srv) (k : N) (m : option hs) : srv * out :=
 
 Inductive ev :=
 | EMsg (k : N) (m : option hs)
-| EBan (a : N) | EUnban (a : N) | EBlack (a : N) | EUnblack (a : N)
+| EBan (a : N) | EUnban (a : N)
+| EBlack (a : N) | EUnblack (a : N)      (* AddToBlacklist(ip, 1h or permanent) / RemoveFromBlacklist(ip) *)
+| EBlackC (a : N) | EUnblackC (a : N)    (* the same for a CIDR entry covering a *)
+| ERestart (lapsed : option N)           (* the server process is restarted over the same storage; lapsed = Some a: just before,
+                                            a short-lived blacklist entry for a was added (replacing a's exact entry) and expired *)
 | EExpire (x : N) | EDelete (x : N) | EDelAnon (x : N) | ERekey (x : N) | ERegister
 | ECorrupt (x : N) (empty : bool)        (* the stored credential of x becomes "" / an undecryptable string *)
 | ERate (deny : bool)
 | EClose (k : N) | EOpen (k a : N).
+
+(* what survives a restart of the server process: everything the code keeps in storage — client configs (and the id /
+   secret / nonce numbering of the abstraction) and the IP blacklist.  In process memory only, hence lost: connections and
+   their ControlConnections (with pending challenges), the client registry, brute-force failure records AND bans
+   (BruteForceProtector has no storage), rate-limiter buckets. *)
+Definition restart (s : srv) : srv :=
+  {| clients := clients s; next_id := next_id s; next_secret := next_secret s; next_nonce := next_nonce s;
+     banned := fun _ => false; black := black s; fails := fun _ => 0; rl_deny := false;
+     conns := fun _ => None; index := fun _ => None |}.
 
 Definition no_out := {| o_err := false; o_wire := WNone; o_auth := None |}.
 
@@ -240,8 +260,11 @@ Definition step (v : variant) (s : srv) (e : ev) : srv * out :=
   | EMsg k m => handle v s k m
   | EBan a => (set_banned s (upd (banned s) a true), no_out)
   | EUnban a => (set_banned s (upd (banned s) a false), no_out)
-  | EBlack a => (set_black s (upd (black s) a true), no_out)
-  | EUnblack a => (set_black s (upd (black s) a false), no_out)
+  | EBlack a => (set_black s (upd (black s) (k_ip a) true), no_out)
+  | EUnblack a => (set_black s (upd (black s) (k_ip a) false), no_out)
+  | EBlackC a => (set_black s (upd (black s) (k_cidr a) true), no_out)
+  | EUnblackC a => (set_black s (upd (black s) (k_cidr a) false), no_out)
+  | ERestart lapsed => (restart (match lapsed with Some a => set_black s (upd (black s) (k_ip a) false) | None => s end), no_out)
   | EExpire x => (match clients s x with
                   | Some cl => set_clients s (upd (clients s) x (Some {| stored := stored cl; expired := true |}))
                   | None => s end, no_out)
@@ -280,7 +303,7 @@ Definition verif_target (s : srv) (k : N) (m : hs) : option N :=
   match conns s k with
   | None => None
   | Some cn =>
-    if black s (c_addr cn) || banned s (c_addr cn) then None
+    if blocked s (c_addr cn) || banned s (c_addr cn) then None
     else if (h_cid m =? 0) && (rl_deny s || h_new m) then None
     else match clients s (h_cid m) with
          | None => None
